@@ -3,6 +3,7 @@
 package scheduler
 
 import (
+	"github.com/apache/yunikorn-core/pkg/common/resources"
 	"github.com/apache/yunikorn-core/pkg/common/configs"
 	"github.com/apache/yunikorn-core/pkg/scheduler/objects"
 )
@@ -42,13 +43,22 @@ func VerifC16_ReloadKeepsStateAppliesLimits() {
 	vAssert(err == nil && pc != nil, "world: partition created")
 	pc.nodes = &vNodeColl{policy: pc.nodes.GetNodeSortingPolicy()}
 	w := &vPW{pc: pc, rec: &vRecorder{}}
-	n := objects.NewNode(nodeInfo("node-1", vResQ("node-1.cap")))
+	// concrete, large node; allocation and ask of one resource type with symbolic size: the lemma is about what a
+	// reload keeps and applies, not about how full the node is
+	bigCap := resources.NewResource()
+	for i := 0; i < vNK(); i++ {
+		bigCap.Resources[vKeys[i]] = resources.Quantity(1 << 42)
+	}
+	n := objects.NewNode(nodeInfo("node-1", bigCap))
 	_ = pc.AddNode(n)
 	w.nodes = append(w.nodes, n)
 	// a running application with one bound allocation and one ask in root.prod (RM-forced: recovery ignores quotas)
 	app := w.addAppIn("app-1", "root.prod")
-	_, _, e1 := pc.UpdateAllocation(objects.NewAllocationFromSI(vSIAlloc("alloc-1", "app-1", "node-1", vResPos("a1"))))
-	_, _, e2 := pc.UpdateAllocation(objects.NewAllocationFromSI(vSIAlloc("ask-2", "app-1", "", vResPos("a2"))))
+	one := func(name string) *resources.Resource {
+		return resources.NewResourceFromMap(map[string]resources.Quantity{vKeys[0]: resources.Quantity(vRange(name, 1, 1000))})
+	}
+	_, _, e1 := pc.UpdateAllocation(objects.NewAllocationFromSI(vSIAlloc("alloc-1", "app-1", "node-1", one("a1.k0"))))
+	_, _, e2 := pc.UpdateAllocation(objects.NewAllocationFromSI(vSIAlloc("ask-2", "app-1", "", one("a2.k0"))))
 	vAssert(e1 == nil && e2 == nil, "world: allocation and ask accepted")
 	prod := pc.GetQueue("root.prod")
 	preAlloc, prePend := vecOf(prod.GetAllocatedResource()), vecOf(prod.GetPendingResource())
